@@ -87,7 +87,7 @@ def run_case(case):
                     core.check(c in by_cols, "offset %r listed for node %s returns something that is not a record of the file: %r",
                                off, nid, c)
                     got.add(by_cols[c][0])
-                core.check(len(ind[k]) > 0, "empty entry for node %s", nid)
+                # an empty entry for a node no record traverses satisfies the "if and only if" just as well as no entry
                 core.check(got == expected[nid], "node %s: index lists records %s, records traversing it are %s",
                            nid, sorted(got), sorted(expected[nid]))
             for n, e in expected.items():
